@@ -1042,6 +1042,7 @@ func (v *Verifier) bytesToStr(s *State, sl *Term) *Term {
 // the zero element elsewhere; introduced as a fresh constant with a defining
 // axiom so that equal windows are equal arrays (extensionality).
 func (v *Verifier) window(s *State, arr, off, n *Term) *Term {
+	off, n = s.normInt(off), s.normInt(n)
 	key := arr.String() + "|" + off.String() + "|" + n.String()
 	if w, ok := v.windows[key]; ok {
 		// the defining axiom must be on this path as well
@@ -1067,6 +1068,12 @@ func (v *Verifier) window(s *State, arr, off, n *Term) *Term {
 	}
 	in := And(Le(IntLit(0), i), Lt(i, n))
 	ax := Forall([]*Term{i}, Eq(Select(w, i), Ite(in, Select(arr, Add(off, i)), zero)), mk("select", es, w, i))
+	// reverse direction, triggered by reads of the underlying array
+	if arr.Op != "const-array" {
+		a := v.fresh("wa", SInt)
+		rev := Forall([]*Term{a}, Implies(And(Le(off, a), Lt(a, Add(off, n))), Eq(Select(w, Sub(a, off)), Select(arr, a))), mk("select", es, arr, a))
+		ax = And(ax, rev)
+	}
 	wi := &winInfo{c: w, axiom: ax, kind: "win|" + n.String()}
 	v.windows[key] = wi
 	s.pc = append(s.pc, ax)
